@@ -1,12 +1,21 @@
 """C06 - deep copies of a tree are independent of the original (bounded exhaustive history exploration;
 harness props/h06.py).
 
-History space: one deepcopy (hist_cc: a copy of a copy, with an edit in between) followed by two edits,
-each any of six AST-API edits (add/remove symbol, equation, class) on either side and on any class of the
-library.  z3 enumerates the history tuples satisfying the harness's precondition (all models, blocking
-clauses); for every history the REAL code runs concretely: copy.deepcopy(tree), the edits, tree.flatten of
-every class of every tree after every edit, compared with oracle trees that were unpickled independently
-and received the same edits.
+History space: one deepcopy (hist_cc*: a copy of a copy, with an edit in between) followed by two edits (one in
+the single-edit backend family), each an AST-API edit on any side and on any class of the library.  Families:
+  hist, hist_cc       the six original edit kinds (add/remove symbol, equation, class; fresh payload nodes)
+  hist_w, hist_cc_w   the same, but every tree is flattened BEFORE it is deep-copied and before the first edit
+                      (whatever pymoca caches inside a tree while flattening is then copied / edited under)
+  hist_x, hist_cc_x   at least one edit of the further kinds: add/remove initial equation, and add_class /
+                      add_symbol whose payload was TAKEN FROM A TREE (find_class() copy or copy.deepcopy of a class
+                      or symbol of the next tree or of the same tree - such copies still point to the parent they
+                      were copied under)
+  hist_be, hist_cc_be observed through the SymPy and XML backends (which deep-copy the tree themselves) instead of
+                      tree.flatten: generate before the deepcopy, after it and after every edit
+z3 enumerates the history tuples satisfying the family's constraint (all models, blocking clauses); for every
+history the REAL code runs concretely: copy.deepcopy(tree), the edits, tree.flatten (or backend generate) of every
+class of every tree after every edit, compared with oracle trees that were unpickled independently and received
+only the edits of their side.
 
 Why no value-level symbolic execution here: the property quantifies over histories only; tracing
 deepcopy + flatten under CrossHair costs ~10 s per flatten (measured), which bounds a traced run to a few
@@ -21,8 +30,24 @@ from vk.report import Collector, Report, run_parallel, std_args
 PROP = "C06"
 WHY = {0: "an edit raised on one of two equal trees only", 2: "flattening the ORIGINAL differs from the oracle after the edits",
        3: "flattening the COPY differs from the oracle after the edits", 4: "flattening the COPY OF THE COPY differs from the oracle after the edits"}
-KINDS = ["add_symbol", "remove_symbol", "add_equation", "remove_equation", "add_class", "remove_class"]
 SIDES = ["original", "copy", "copy-of-copy"]
+
+# enumeration id -> (k1 range, k2 range, constraint on (k1, k2) or None, number of (k1, k2) pairs)
+ENUMS = {
+    "base": ((0, 5), (0, 5), None, 36),
+    "new": ((0, 11), (0, 11), "new", 144 - 36),   # at least one edit of a kind >= 6
+    "one": ((0, 7), (-1, -1), None, 8),           # a single edit (plain kinds)
+    "two": ((0, 7), (0, 7), None, 64),
+}
+
+
+def describe(func, tup, names):
+    import props.h06 as h
+    k1, s1, c1, k2, s2, c2 = tup
+    hh = [f"{h.KINDS[k1]}({names[c1]}) on {SIDES[s1]}"]
+    if k2 >= 0:
+        hh.append(f"{h.KINDS[k2]}({names[c2]}) on {SIDES[s2]}")
+    return hh
 
 
 def work(item):
@@ -40,21 +65,38 @@ def work(item):
         from props.hflat import LIBS
         names = LIBS[lib][1]
         for t in tuples:
-            k1, s1, c1, k2, s2, c2 = t
-            if func == "hist":
-                r = h._hist(k1, s1, c1, 51, k2, s2, c2, 52, 11, 12)
-            else:
-                r = h._hist_cc(k1, s1, c1, 51, k2, s2, c2, 52, 11)
+            r = h.run(func, tuple(t))
             col.bump("histories")
+            col.bump("histories_" + func)
             if r != 1:
-                hh = [f"{KINDS[k1]}({names[c1]}) on {SIDES[s1]}", f"{KINDS[k2]}({names[c2]}) on {SIDES[s2]}"]
-                col.violation(f"{lib}:{func}:" + ";".join(hh), f"after deepcopy and the edits {hh}: {WHY.get(r, r)}",
+                hh = describe(func, t, names)
+                why = WHY.get(r, r)
+                if func.endswith("_be") and r != 0:
+                    why = why.replace("flattening", "the SymPy/XML code generated for")
+                elif func.endswith("_w") and r != 0:
+                    why += " (every tree was flattened before it was copied)"
+                col.violation(f"{lib}:{func}:" + ";".join(hh), f"after deepcopy and the edits {hh}: {why}",
                               {"lib": lib, "function": func, "tuple": list(t), "library_text": str(LIBS[lib][0])})
-        col.sample({"library": lib, "function": func, "history": [f"{KINDS[tuples[0][0]]} on {SIDES[tuples[0][1]]}", f"{KINDS[tuples[0][3]]} on {SIDES[tuples[0][4]]}"]}, 1)
+        col.sample({"library": lib, "function": func, "history": describe(func, tuples[0], names)}, 1)
     except Exception as e:
         import traceback
         col.harness_error(f"{lib} {func}: " + traceback.format_exc()[-800:])
     return col
+
+
+def enumerate_histories(enum, ns, n):
+    """All history tuples of one family, by z3 (one solver per value of k1 to keep the blocking clauses short)."""
+    import z3
+    from vk.allsat import all_models
+    (lo1, hi1), (lo2, hi2), cons, _ = ENUMS[enum]
+    names = ["k1", "s1", "c1", "k2", "s2", "c2"]
+    single = hi2 < 0
+    out = []
+    for k1 in range(lo1, hi1 + 1):
+        rng = {"k1": (k1, k1), "k2": (lo2, hi2), "s1": (0, ns), "s2": (0, 0 if single else ns), "c1": (0, n - 1), "c2": (0, 0 if single else n - 1)}
+        constraint = (lambda v: z3.Or(v["k1"] >= 6, v["k2"] >= 6)) if cons == "new" else None
+        out += list(all_models(names, rng, constraint))
+    return sorted(out)
 
 
 def main():
@@ -62,35 +104,53 @@ def main():
     if a.replay:
         r = json.load(open(a.replay))["replay"]
         c = work((r["lib"], r["function"], [tuple(r["tuple"])]))
-        print(c.violations[:1] or "holds")
+        print(c.violations[:1] or c.harness_errors[:1] or "holds")
         return 1 if c.violations else 0
     rep = Report(PROP, a.tier, "model_checking", a.seed)
+    import props.h06  # registers the libraries of this check in hflat.LIBS
     from props.hflat import LIBS
-    from vk.allsat import all_models
     import time
-    plan = [("comp", "hist"), ("conn", "hist"), ("alias", "hist"), ("assembled", "hist"), ("comp", "hist_cc"), ("assembled", "hist_cc")]
+    plan = [("comp", "hist", "base"), ("conn", "hist", "base"), ("alias", "hist", "base"), ("assembled", "hist", "base"),
+            ("comp", "hist_cc", "base"), ("assembled", "hist_cc", "base"),
+            # flattened before copied; imports of every spelling between the flattened and the edited class
+            ("imp", "hist_w", "base"),
+            # initial equations and payloads taken from a tree
+            ("assembled", "hist_x", "new"),
+            # observed through the backends, single edit
+            ("comp", "hist_be", "one"), ("conn", "hist_be", "one"), ("alias", "hist_be", "one"), ("assembled", "hist_be", "one"),
+            ("imp", "hist_be", "one")]
     if a.tier == "thorough":
-        plan += [("redecl", "hist"), ("func", "hist"), ("conn", "hist_cc"), ("alias", "hist_cc"), ("redecl", "hist_cc")]
+        plan += [("redecl", "hist", "base"), ("func", "hist", "base"), ("imp", "hist", "base"), ("imports", "hist", "base"),
+                 ("conn", "hist_cc", "base"), ("alias", "hist_cc", "base"), ("redecl", "hist_cc", "base"), ("imp", "hist_cc", "base"),
+                 ("comp", "hist_w", "base"), ("conn", "hist_w", "base"), ("alias", "hist_w", "base"), ("assembled", "hist_w", "base"),
+                 ("redecl", "hist_w", "base"), ("imports", "hist_w", "base"),
+                 ("comp", "hist_cc_w", "base"), ("imp", "hist_cc_w", "base"), ("assembled", "hist_cc_w", "base"),
+                 ("comp", "hist_x", "new"), ("conn", "hist_x", "new"), ("alias", "hist_x", "new"), ("imp", "hist_x", "new"),
+                 ("redecl", "hist_x", "new"), ("comp", "hist_cc_x", "new"), ("assembled", "hist_cc_x", "new"),
+                 ("comp", "hist_be", "two"), ("assembled", "hist_be", "two"), ("imp", "hist_be", "two"),
+                 ("redecl", "hist_be", "one"), ("func", "hist_be", "one"),
+                 ("comp", "hist_cc_be", "one"), ("imp", "hist_cc_be", "one"), ("assembled", "hist_cc_be", "one")]
     items = []
     t0 = time.time()
     nq = 0
-    for lib, func in plan:
+    for lib, func, enum in plan:
         n = len(LIBS[lib][1])
-        ns = 1 if func == "hist" else 2
-        names = ["k1", "s1", "c1", "k2", "s2", "c2"]
-        rng = {"k1": (0, 5), "k2": (0, 5), "s1": (0, ns), "s2": (0, ns), "c1": (0, n - 1), "c2": (0, n - 1)}
-        tuples = sorted(all_models(names, rng))
-        nq += len(tuples) + 1
-        expected = 36 * (ns + 1) ** 2 * n * n
-        if len(tuples) != expected:
-            rep.harness_error(f"history enumeration for {lib}/{func}: {len(tuples)} models, expected {expected}")
-        chunk = max(1, len(tuples) // 32)
+        ns = 2 if "_cc" in func else 1
+        tuples = enumerate_histories(enum, ns, n)
+        nq += len(tuples) + (ENUMS[enum][0][1] - ENUMS[enum][0][0] + 1)
+        expected = ENUMS[enum][3] * ((ns + 1) * n) ** (1 if enum == "one" else 2)
+        if len(tuples) != expected or len(set(tuples)) != expected:
+            rep.harness_error(f"history enumeration for {lib}/{func}/{enum}: {len(tuples)} models, expected {expected}")
+        # consecutive tuples share their first edit: the memoised oracle of a chunk is reused within it
+        chunk = max(4 if func.endswith("_be") else 1, len(tuples) // (48 if len(tuples) > 3000 else 32))
         for i in range(0, len(tuples), chunk):
             items.append((lib, func, tuples[i:i + chunk]))
     rep.solver_time += time.time() - t0
     rep.queries["sat"] = 0
     rep.coverage["z3_enumeration_queries"] = nq
-    for col in run_parallel(work, items, a.jobs):
+    # longest items first: the pool hands items out one by one
+    order = sorted(range(len(items)), key=lambda i: -len(items[i][2]) * (8 if items[i][1].endswith("_be") else 1))
+    for col in run_parallel(work, [items[i] for i in order], a.jobs):
         rep.merge(col)
     cov = rep.coverage
     nh = cov.get("histories", 0)
@@ -98,13 +158,24 @@ def main():
     cov["transitions"] = max(1, 2 * nh)
     cov["traces_validated_against_impl"] = nh
     cov["exhaustive"] = not rep.harness_errors
-    cov["functions_encoded"] = ["copy.deepcopy(ast.Tree) -> Class.__deepcopy__, ClassModificationArgument.__deepcopy__; Class.add_/remove_class/symbol/equation; tree.flatten "
+    cov["functions_encoded"] = ["copy.deepcopy(ast.Tree) -> Class.__deepcopy__, ClassModificationArgument.__deepcopy__; Class.add_/remove_class/symbol/equation/"
+                                "initial_equation; Class.find_class (private copy) and copy.deepcopy of a class / symbol as edit payload; tree.flatten; "
+                                "backends.sympy.generator.generate, backends.xml.generator.generate "
                                 "(real code, executed concretely on every history of the bounded space)"]
-    cov["bounds"] = ("one deepcopy (hist_cc: copy of a copy with an edit in between) followed by 2 edits, each any of 6 kinds x any side x any class of the library; after each edit "
-                     "every class of every tree is flattened and compared with the oracle; libraries: " + ", ".join(f"{l}/{f}" for l, f in plan))
+    cov["bounds"] = ("one deepcopy (hist_cc*: copy of a copy with an edit in between) followed by 2 edits (family 'one': 1 edit) x any side x any class of the library; "
+                     "after each edit every class of every tree (and every place an edit can put a class) is observed and compared with the oracle. "
+                     "Families: base = 6 kinds (add/remove symbol, equation, class with fresh payload nodes); new = 12 kinds with at least one of add/remove initial "
+                     "equation, add_class(find_class copy from the next tree, same place), add_class(find_class copy from the same tree, into a new package next to it), "
+                     "add_class(deepcopy of the next tree's class, into a new package), add_symbol(deepcopy of the next tree's symbol with its modifications); "
+                     "one/two = 8 fresh-payload kinds, 1 or 2 edits. Functions: hist/hist_cc observe by tree.flatten; *_w additionally flatten every class of every "
+                     "tree before each deepcopy and before the first edit; *_x = family new; *_be observe through the SymPy and XML backends (generate before the "
+                     "deepcopy, after it and after each edit). Library 'imp': unqualified import in the enclosing package, renaming and single-class import in the "
+                     "model, initial equation. Explored (library/function/family): " + ", ".join(f"{l}/{f}/{e}" for l, f, e in plan))
     rep.assumptions += ["the history space is enumerated completely by z3 (all models of the range constraints); no value-level symbolic reasoning: payload literals are fixed",
-                        "oracle: independently unpickled trees receiving the same edits",
-                        "longer histories and other libraries are outside the claim"]
+                        "oracle: independently unpickled trees receiving only the edits of their side, rebuilt from scratch for every distinct edit list "
+                        "(payloads taken from a tree are taken from a separate rebuilt tree); in the backend families the oracle tree is a new object that no "
+                        "backend has seen before",
+                        "longer histories, other libraries, and trees that were flattened before the copy in the families without _w/_be are outside the claim"]
     return rep.finish()
 
 
